@@ -5,7 +5,7 @@ patch=$1; shift
 wt=$(mktemp -d /tmp/wt.XXXXXX); rmdir $wt
 git -C /repo worktree add -q --detach $wt HEAD || exit 2
 trap 'git -C /repo worktree remove --force '$wt' 2>/dev/null; git -C /repo worktree prune' EXIT
-git -C $wt apply $patch || { echo "patch does not apply"; exit 2; }
+git -C $wt apply $patch 2>/dev/null || git -C $wt apply -3 $patch >/dev/null 2>&1 || { echo "patch does not apply"; exit 2; }
 for chk in "$@"; do
   out=$(cd /verif && VERIF_REPO_SRC=$wt/src VERIF_OUT_DIR=$wt/.verif-out ./check $chk 2>&1); rc=$?
   case $rc in 1) r=VIOLATION;; 0) r=ok;; *) r="machinery-failure($rc)";; esac
